@@ -501,13 +501,6 @@ func c14SendJoin(c *mon.Ctx, r *gen.Rand, sc *simScenario) {
 	stale := sc.trunk
 	state := resident.list()
 	auth := authClosure(s.all, state)
-	var resp rawResp
-	for _, p := range state {
-		resp.state = append(resp.state, p.JSON())
-	}
-	for _, p := range auth {
-		resp.auth = append(resp.auth, p.JSON())
-	}
 	for _, user := range s.users[1:] {
 		for _, against := range []*simBranch{resident, stale} {
 			// the join event is built against one view of the room and checked against the resident's state
@@ -521,50 +514,97 @@ func c14SendJoin(c *mon.Ctx, r *gen.Rand, sc *simScenario) {
 			if err != nil {
 				continue
 			}
-			var own []gmsl.PDU
-			inResp := map[string]gmsl.PDU{}
-			for _, p := range append(append([]gmsl.PDU{}, state...), auth...) {
-				inResp[p.EventID()] = p
+			// the response as it is, and with one event the join depends on moved from the state to the auth-event list: the
+			// returned state then lacks it, and what is among the auth events must not stand in for it
+			type variant struct {
+				label string
+				state []gmsl.PDU
+				auth  []gmsl.PDU
 			}
-			for _, a := range join.AuthEventIDs() {
-				if p, ok := inResp[a]; ok {
-					own = append(own, p)
-				} else if p, ok := s.all[a]; ok {
-					own = append(own, p) // provider returns it
+			variants := []variant{{"whole-state", state, auth}}
+			needed := map[gmsl.StateKeyTuple]bool{}
+			for _, tup := range gmsl.StateNeededForAuth([]gmsl.PDU{join}).Tuples() {
+				needed[tup] = true
+			}
+			for _, p := range gen.Shuffled(r, state) {
+				if len(variants) >= 3 {
+					break
 				}
+				if p.Type() == "m.room.create" || !needed[gmsl.StateKeyTuple{EventType: p.Type(), StateKey: *p.StateKey()}] {
+					continue
+				}
+				var rest []gmsl.PDU
+				for _, q := range state {
+					if q != p {
+						rest = append(rest, q)
+					}
+				}
+				moved := append([]gmsl.PDU{}, auth...)
+				have := false
+				for _, q := range auth {
+					if q.EventID() == p.EventID() {
+						have = true
+					}
+				}
+				if !have {
+					moved = append(moved, p)
+				}
+				variants = append(variants, variant{"state-without-" + p.Type(), rest, moved})
 			}
-			byOwn := allowedBy(join, own)
-			byState := allowedBy(join, state)
-			view := "resident-state"
-			if against == stale {
-				view = "stale-state"
-			}
-			name := fmt.Sprintf("send-join:%s", s.ver)
-			c.Case(name, map[string]any{"version": s.ver, "user": user, "built_against": view, "allowed_by_own_auth_events": byOwn, "allowed_by_returned_state": byState}, func() {
-				c.Nontrivial(fmt.Sprintf("%s|sj|%s|%s|%v", s.ver, user, view, idsOf(state)))
-				var asked []string
-				var out gmsl.StateResponse
-				var err error
-				site, msg, pan := mon.Guard(func() {
-					out, err = gmsl.CheckSendJoinResponse(context.Background(), s.ver, resp, c14ring, join, mkProvider(provReturns, s.all, &asked), userIDForSender)
+			for _, v := range variants {
+				state, auth, label := v.state, v.auth, v.label
+				var resp rawResp
+				for _, p := range state {
+					resp.state = append(resp.state, p.JSON())
+				}
+				for _, p := range auth {
+					resp.auth = append(resp.auth, p.JSON())
+				}
+				var own []gmsl.PDU
+				inResp := map[string]gmsl.PDU{}
+				for _, p := range append(append([]gmsl.PDU{}, state...), auth...) {
+					inResp[p.EventID()] = p
+				}
+				for _, a := range join.AuthEventIDs() {
+					if p, ok := inResp[a]; ok {
+						own = append(own, p)
+					} else if p, ok := s.all[a]; ok {
+						own = append(own, p) // provider returns it
+					}
+				}
+				byOwn := allowedBy(join, own)
+				byState := allowedBy(join, state)
+				view := "resident-state"
+				if against == stale {
+					view = "stale-state"
+				}
+				name := fmt.Sprintf("send-join:%s", s.ver)
+				c.Case(name, map[string]any{"version": s.ver, "user": user, "built_against": view, "response": label, "allowed_by_own_auth_events": byOwn, "allowed_by_returned_state": byState}, func() {
+					c.Nontrivial(fmt.Sprintf("%s|sj|%s|%s|%s|%v", s.ver, user, view, label, idsOf(state)))
+					var asked []string
+					var out gmsl.StateResponse
+					var err error
+					site, msg, pan := mon.Guard(func() {
+						out, err = gmsl.CheckSendJoinResponse(context.Background(), s.ver, resp, c14ring, join, mkProvider(provReturns, s.all, &asked), userIDForSender)
+					})
+					if pan {
+						c.Failf("sendjoin:panic:"+site, "CheckSendJoinResponse panics: %s", msg)
+						return
+					}
+					c.Count("send_join_checks")
+					c.Count(fmt.Sprintf("send_join_own=%v_state=%v", byOwn, byState))
+					want := byOwn && byState
+					if want && err != nil {
+						c.Failf("sendjoin:rejects-allowed-join", "CheckSendJoinResponse refuses a join allowed by its auth events and by the returned state: %v", err)
+					}
+					if !want && err == nil {
+						c.Failf(fmt.Sprintf("sendjoin:accepts-join:own=%v:state=%v", byOwn, byState), "CheckSendJoinResponse accepts a join of %s that is allowed by its own auth events: %v, by the returned state: %v (response: %s)", user, byOwn, byState, label)
+					}
+					if err == nil && out != nil && len(out.GetStateEvents()) != len(state) {
+						c.Failf("sendjoin:state-not-returned", "accepted send_join returns %d state events of %d", len(out.GetStateEvents()), len(state))
+					}
 				})
-				if pan {
-					c.Failf("sendjoin:panic:"+site, "CheckSendJoinResponse panics: %s", msg)
-					return
-				}
-				c.Count("send_join_checks")
-				c.Count(fmt.Sprintf("send_join_own=%v_state=%v", byOwn, byState))
-				want := byOwn && byState
-				if want && err != nil {
-					c.Failf("sendjoin:rejects-allowed-join", "CheckSendJoinResponse refuses a join allowed by its auth events and by the returned state: %v", err)
-				}
-				if !want && err == nil {
-					c.Failf(fmt.Sprintf("sendjoin:accepts-join:own=%v:state=%v", byOwn, byState), "CheckSendJoinResponse accepts a join of %s that is allowed by its own auth events: %v, by the returned state: %v", user, byOwn, byState)
-				}
-				if err == nil && out != nil && len(out.GetStateEvents()) != len(state) {
-					c.Failf("sendjoin:state-not-returned", "accepted send_join returns %d state events of %d", len(out.GetStateEvents()), len(state))
-				}
-			})
+			}
 		}
 	}
 }
@@ -625,6 +665,28 @@ func c14AuthChain(c *mon.Ctx, r *gen.Rand, sc *simScenario) {
 			}
 			ev = gen.Pick(r, s.refused)
 			detail = ev.Type()
+		}
+		if r.Chance(0.25) {
+			// an event that cites no auth events at all and is not a create event (a forged power-levels event), verified
+			// itself or cited by an otherwise ordinary event: only the create event is allowed by nothing
+			u := gen.Pick(r, s.users[1:])
+			uid := serverIdentity(serverOf(u))
+			forgedB := s.impl.NewEventBuilderFromProtoEvent(&gmsl.ProtoEvent{SenderID: u, RoomID: s.roomID, Type: "m.room.power_levels", StateKey: strp(""), PrevEvents: []string{b.tip}, AuthEvents: []string{}, Depth: b.depth + 1,
+				Content: []byte(`{"users":{"` + u + `":100}}`)})
+			if forged, err := forgedB.Build(baseTime, spec.ServerName(uid.Server), gmsl.KeyID(uid.KeyID), uid.Priv); err == nil && len(forged.AuthEventIDs()) == 0 {
+				pool[forged.EventID()] = forged
+				ev, fault, detail = forged, "cites-no-auth-events", "itself"
+				if member := b.state[stKey{"m.room.member", u}]; member != nil && r.Chance(0.6) {
+					citing := s.impl.NewEventBuilderFromProtoEvent(&gmsl.ProtoEvent{SenderID: u, RoomID: s.roomID, Type: "m.room.topic", StateKey: strp(""), PrevEvents: []string{b.tip}, Depth: b.depth + 2,
+						AuthEvents: []string{s.create.EventID(), forged.EventID(), member.EventID()}, Content: []byte(`{"topic":"x"}`)})
+					if s.t.Domainless {
+						citing.AuthEvents = []string{forged.EventID(), member.EventID()}
+					}
+					if ce, err := citing.Build(baseTime, spec.ServerName(uid.Server), gmsl.KeyID(uid.KeyID), uid.Priv); err == nil && s.t.EventIDFormat >= 2 {
+						ev, detail = ce, "an auth event of the event"
+					}
+				}
+			}
 		}
 		mode := provReturns
 		if fault == "provider-error" {
